@@ -52,7 +52,12 @@ func c02Stmt(name string, wide bool) (*gripql.GraphStatement, string) {
 	case 3:
 		return sHas(vCond("_gid", gripql.Condition_WITHIN, []interface{}{vSymID(name+".i", 'a', 'c'), "b"})), "has(within(_gid))"
 	case 4:
-		return sHas(vCond("x", gripql.Condition_GT, vFinite(name+".n"))), "has(gt(x))"
+		// the property under either of its spellings (x, _data.x)
+		key := "x"
+		if vChoice(name+".spelling", 2) == 1 {
+			key = "_data.x"
+		}
+		return sHas(vCond(key, gripql.Condition_GT, vFinite(name+".n"))), "has(gt(x))"
 	case 5:
 		return sOut(), "out"
 	case 6:
